@@ -188,7 +188,7 @@ class CommandWrapper(Wrapper):
             count = await self._with_middlewares_for_backend(
                 Command.GET_KEYS_COUNT, backend, self._default_middlewares
             )()
-            result += count
+            result += count or 0  # a disabled backend answers None
         return result
 
     async def clear(self) -> None:
